@@ -94,10 +94,9 @@ package staking
 // ASSUMED structure of the records the state hands out (see takePenalty):
 //@ ensures result != nil ==> c05StakeIsSumOfParts(result) && c05StakesNonNegative(result) && c05DelegatorsUnique(result) && c05EntriesDistinctAmounts(result)
 
-// Look-back validator set of the evidence's round: ASSUMED to return the set of that round (read-only).
-//@ func (*github.com/youchainhq/go-youchain/core.BlockChain).LookBackVldReaderForRound props C05
-//@ nobody
-//@ pure
+// Look-back validator set of the evidence's round and vote kind: (*core.BlockChain).LookBackVldReaderForRound is under a VERIFIED contract in
+// core/verif_contracts_c05.go (the reader of block max(0, round - distance of the vote kind)); the call site passes the evidence's own round and
+// kind ([lookback-for-the-evidences-round-and-kind] below).
 //@ func (github.com/youchainhq/go-youchain/core/state.ValidatorReader).GetValidators props C05
 //@ trusted
 //@ pure
@@ -193,6 +192,8 @@ package staking
 //@ ensures [amount-kept] big(amount) == old(big(amount))
 //@ ensures [withdraw-take] val == nil ==> true
 //@ ensures [stake-take] val != nil ==> big(sourceToken) == old(big(sourceToken)) - big(amount) && big(val.Token) == old(big(val.Token)) - big(amount)
+// (inductive step of [stake-is-sum-of-parts] for the penalty itself: the record's total stake moves exactly as the charged part's stake does)
+//@ ensures [stake-moves-with-part] val != nil ==> big(val.Stake) - old(big(val.Stake)) == big(sourceStake) - old(big(sourceStake))
 
 // Sum of what was taken out of unfinished withdraw records (in place).
 //@ ghost var c05Wd: int
@@ -431,6 +432,7 @@ package staking
 //@ assume [cache-empty] evidence.addr.v == nil
 //@ modifies all, c05E, c05Signs, c05R, c05I, c05Two, c05Listed, c05Distinct, c05SameKind, c05Accused, c05Calls, c05Wd, c05Rest, c05Room, c05PerStake, c05PerSelf, c05DlgPlan, c05Cap, c05Src, c05Left, c05Dom, c05Vals, c05Lo, c05Hi, c05Bal
 //@ loop #1 invariant [roundbuf] c05IsRoundBuf(roundbuf, doubleSign.Round, doubleSign.RoundIndex)
+//@ assert before call (*BlockChain).LookBackVldReaderForRound: [lookback-for-the-evidences-round-and-kind] a1 == doubleSign.Round && a2 == (doubleSign.VoteType == Certificate)
 //@ ghost before call (bls.PublicKey).Verify: c05E := info
 //@ ghost before call (bls.PublicKey).Verify: c05Signs := doubleSign.Signs
 //@ ghost before call (bls.PublicKey).Verify: c05R := doubleSign.Round
@@ -522,3 +524,15 @@ package staking
 //@ modifies all, c05E, c05Signs, c05R, c05I, c05Two, c05Listed, c05Distinct, c05SameKind, c05Accused, c05Calls, c05Wd, c05Rest, c05Room, c05PerStake, c05PerSelf, c05DlgPlan, c05Cap, c05Src, c05Left, c05Dom, c05Vals, c05Lo, c05Hi, c05Bal
 //@ assert before call rlp.DecodeBytes#1: [decodes-the-headers-slash-data] a0 == ctx.header.SlashData
 //@ assert before call (*Staking).processEvidences: [replays-the-decoded-list] a6 == evidences && a1 == ctx.config && a2 == ctx.db && a3 == header && a5 == ctx.receipt
+
+// ---------------------------------------------------------------------------------------------------------------
+// Inductive steps of [stake-is-sum-of-parts] for the validator's OWN stake (deposit taking effect): the record stored is a copy of
+// the old one whose total stake has moved exactly as its self stake has; the delegation entries are those of the old record (PartialCopy).
+// Typestate asserts at the hand-over to the state.
+// ---------------------------------------------------------------------------------------------------------------
+//@ func teDeposit props C05
+//@ modifies all, c05Bal
+//@ assert before call (*StateDB).UpdateValidator: [stake-moves-with-self-stake] a2 == old && a1 == newVal && a1 != a2 &&
+//@     big(a1.Stake) - big(a2.Stake) == big(a1.SelfStake) - big(a2.SelfStake) && len(a1.Delegations) == len(a2.Delegations)
+// (teWithdraw — the same step for a withdrawal — is outside: it may overwrite the decoded amount tx.Value in place, and the frame-style contract of
+//  rlp.DecodeBytes cannot say that a decoded amount is a new object; /verif/props/C05.json)
